@@ -14,10 +14,11 @@ from . import setop_prop as S
 
 ASSUMES = S.ASSUMES
 LEVEL_TEXT = __doc__
-RULES = {"push": "R05.1", "emit": "R05.3", "ctor": "R05.5"}
+RULES = {"push": "R05.1", "emit": "R05.3", "ctor": "R05.5", "partition": "R05.2"}
 
 
 def declare(rep):
+    rep.rule("R05.2", "independent of the tables: no node still to be visited is dropped (left always, right for union), none is pushed twice")
     rep.rule("R05.1", "entries pushed by every arm, in order (pair classification + one-sided descent), as specified")
     rep.rule("R05.3", "item emitted by every arm: tag from value presence, values and key of the paired nodes")
     rep.rule("R05.5", "initial stack of union / union_mut for any two view positions")
